@@ -3,6 +3,7 @@ package checks
 import (
 	"context"
 	"fmt"
+	"strings"
 
 	"github.com/relab/gorums"
 
@@ -242,6 +243,12 @@ func raceInstances(tier string) []Instance {
 		}
 		for _, in := range c.Gen("quick") {
 			if in.Root == nil {
+				continue
+			}
+			if strings.Contains(in.Name, "/late-registration") {
+				// Registering a handler on a server that is already serving is not among the concurrent uses
+				// C15 lists (the handler table is set up before the server accepts, as with grpc's own
+				// registration, which refuses it outright); the table is unsynchronised by design.
 				continue
 			}
 			in.Name = "race+" + src + "/" + in.Name
